@@ -107,7 +107,28 @@ pub fn generate(seed: u64, tier: &str, sink: &mut Sink) {
         let mut body = vec![];
         match framing {
             0 => {
-                head.extend_from_slice(if coding == "gzip-te" { b"Transfer-Encoding: gzip, chunked\r\n" } else { b"Transfer-Encoding: chunked\r\n" });
+                // every spelling of "chunked is the final transfer coding": one list, one field line per coding,
+                // empty list elements (RFC 9110 §5.6.1), HTAB as optional whitespace (seed C06-seed8)
+                let te: &[u8] = if coding == "gzip-te" {
+                    *rng.pick(&[
+                        &b"Transfer-Encoding: gzip, chunked\r\n"[..],
+                        b"Transfer-Encoding: gzip, chunked\r\n",
+                        b"Transfer-Encoding: gzip\r\nTransfer-Encoding: chunked\r\n",
+                        b"Transfer-Encoding: gzip, chunked,\r\n",
+                        b"transfer-encoding: GZIP\t,\tChunked\r\n",
+                        b"Transfer-Encoding: gzip\r\nX-Between: 1\r\nTransfer-Encoding: , chunked\r\n",
+                    ])
+                } else {
+                    *rng.pick(&[
+                        &b"Transfer-Encoding: chunked\r\n"[..],
+                        b"Transfer-Encoding: chunked\r\n",
+                        b"Transfer-Encoding: chunked\r\n",
+                        b"Transfer-Encoding: identity\r\nTransfer-Encoding: chunked\r\n",
+                        b"Transfer-Encoding: chunked,\r\n",
+                        b"Transfer-Encoding: ,chunked\r\n",
+                    ])
+                };
+                head.extend_from_slice(te);
                 let mut i = 0;
                 // chunk sizes: small pieces, or a few large chunks (beyond the 64 KiB piece buffer)
                 let big_chunks = rng.chance(1, 3);
